@@ -1,7 +1,7 @@
 (* C14 - the writer -> lexer -> parser chain of modified-attributes.conf rests on C17's round-trip theorem
    (Cw/CwParseProofs.v: cw_values_roundtrip = C17_values; Cw/CwStrProofs.v: cw_string_roundtrip). *)
 From Icv Require Import Base.Tac Facts.Facts_c17 Persist.PsValue Persist.PsModel Persist.PsValueProofs Persist.PsPopModel
-  Persist.PsText Cw.CwModel Cw.CwTxn Cw.CwFacts Cw.CwStrProofs Cw.CwLexProofs Cw.CwParseProofs Cw.CwValuesProofs.
+  Persist.PsText Cw.CwModel Cw.CwTxn Cw.CwStrProofs Cw.CwLexProofs Cw.CwParseProofs Cw.CwValuesProofs.
 From Coq Require Import NArith.
 Local Open Scope N_scope.
 
